@@ -17,6 +17,39 @@ def main():
     ck.outside.append('randomness sources that fail or return short reads (property C19)')
     ck.assumptions += sm2model.CONTRACTS
     eng = proto_engine(prog)
+    eng.deadline = time.time() + (900 if not thorough else 4 * 3600)
+    # ---------------------------------------------------------------- special vectors on the real build first (cheap): the signature for keys with
+    # leading zero bytes, short and all-ones key encodings, extreme digests and nonces must be the GM/T 0003.2 value
+    rng0 = ck.rng
+    sv = []
+    for dv, klen_ in [(rng0.randrange(1, N - 1), 32), (rng0.randrange(1, 2 ** 247), 32), (rng0.randrange(1, 2 ** 200), 32), (1, 32), (N - 2, 32), (rng0.randrange(2 ** 240, 2 ** 248), 31),
+                      (rng0.randrange(1, 2 ** 240), 31), (rng0.randrange(2 ** 120, 2 ** 128), 16), (0xff, 1), (0xffff, 2), (5, 32), (2 ** 248 - 1, 31)]:
+        for evv, kv in [(rng0.getrandbits(256), rng0.randrange(1, N)), (0, 1), (2 ** 256 - 1, N - 1), (rng0.getrandbits(200), rng0.randrange(1, 2 ** 200))][:(4 if thorough else 2)]:
+            rs = ref.sign_k(dv, evv, kv)
+            if rs is None:
+                continue
+            sv.append('{%s,%s,%s,%s,%s},' % (go_bytes(list(dv.to_bytes(klen_, 'big'))), go_bytes(b32(evv)), go_bytes(b32(kv) + b32(0x1234567) * 2), go_bytes(b32(rs[0])), go_bytes(b32(rs[1]))))
+    src0 = '''package sm2
+import ("testing"; "bytes")
+type verifReader struct{ b []byte; used int }
+func (r *verifReader) Read(p []byte) (int, error) { n := copy(p, r.b[r.used:]); r.used += n; return n, nil }
+func TestVerifReplay(t *testing.T) {
+	cases := []struct{ d, e, k, r, s []byte }{
+%s
+	}
+	for i, c := range cases {
+		rd := &verifReader{b: c.k}
+		r, s, err := SignHashed(rd, c.d, c.e)
+		if err != nil { t.Fatalf("case %%d (key of %%d bytes): sign error %%v", i, len(c.d), err) }
+		if !bytes.Equal(r, c.r) || !bytes.Equal(s, c.s) || rd.used != 32 { t.Fatalf("case %%d (key %%x): r=%%x s=%%x used=%%d, GM/T 0003.2 gives r=%%x s=%%x used=32", i, c.d, r, s, rd.used, c.r, c.s) }
+	}
+}''' % '\n'.join(sv)
+    ok0, out0, path0 = ck.go_test('sm2', src0, name='special_vectors')
+    if ok0 is True:
+        ck.validated += len(sv)
+    elif ok0 is False:
+        ck.record('sign[special-vectors]', 'violated', 'the signature for a special key / digest / nonce differs from the GM/T 0003.2 value: ' + (out0 or '')[-300:].replace('\n', ' '))
+        ck.violation('special-vectors', 'SignHashed differs from the standard for a special key (leading zero bytes, short or all-ones encoding, extreme digest or nonce)', path0)
     fails = {}      # key -> list of (desc, model, info)
     cexkeys = set()
     unknown = []
@@ -92,6 +125,8 @@ def main():
                 fails.setdefault(f[0], []).append(f)
     secs = time.time() - t0
     ck.absorb(eng)
+    if getattr(eng, 'budget_hit', None):
+        ck.record('sign[time-budget]', 'inconclusive', 'the symbolic exploration stopped at its time budget after %d paths (%d decision prefixes left unexplored)' % (npaths, eng.budget_hit))
 
     # ---------------------------------------------------------------- replay of counterexamples on the real build
     def replay(key, f):
